@@ -650,8 +650,7 @@ def run(case, ctx):
                 twin = type(o)()
                 setattr(twin, name, op[1])
                 setattr(o, name, getattr(twin, name))
-                del twin
-                gc.collect()
+                del twin                      # (a plain instance without handlers: freed by reference counting)
                 ctx.label("assign-from-twin")
                 interesting = True
                 r = None
